@@ -202,6 +202,13 @@ class Gen:
                 ws = [r.choice(WORDS) for _ in range(m)]
                 ws[0] = d + ws[0]
                 ws[-1] = ws[-1] + d
+                # (not in very long paragraphs: marko's delimiter matching becomes unreliable when a '*' inside a word is
+                # followed by hundreds of other delimiter runs; it then reads a later '**x**' as literal stars, although
+                # CommonMark and markdown-it read strong emphasis. That tests the reader, not flowmark.)
+                if len(d) == 1 and d != "~" and m >= 2 and n <= 60 and r.random() < 0.15:
+                    # emphasis nested in emphasis where it touches a letter: only '*' can open / close inside a word
+                    self.feats.add("emphasis-nested-in-word")
+                    ws[1] = r.choice(["*in*ner", "*b*c", "*b*c"]) + (d if m == 2 else "")
                 out.extend(ws)
                 i += m
             elif self.hostile and k < atoms + 0.07 + 0.10 and out:
